@@ -1,12 +1,26 @@
 (* C06/Run.v -- entry point of the correspondence check. *)
 From Coq Require Import ZArith List Bool.
-From AK Require Export Common.Sx Common.Err C06.Model C06.Spec.
+From AK Require Export Common.Sx Common.Err C06.Model C06.Spec C06.Refs.
 Import ListNotations.
 Open Scope Z_scope.
 
+(* a repository whose refs are read by the library's own GitRepo.iter_refs from a '.git' directory: the
+   packed-refs text and the loose ref files, the hexsha of commit k, the build tags and their numbers *)
+Record dinfo := mkDI { di_disk : disk; di_shas : list (list Z); di_tags : list (list Z * bnum) }.
+
 Inductive case :=
-| Report (chk : bool) (h : history)            (* chk: also evaluate the verified statement checker *)
-| Session (steps : list (bool * history))       (* one long-lived ReposCollection asked for several reports while
+| Report (chk : bool) (od : option dinfo) (h : history)
+                                                (* chk: also evaluate the verified statement checker;
+                                                   od = Some _: the heads of [h_refs h] and the tags of the commits
+                                                   are NOT taken from [h] but read from the ref files (Refs.v) *)
+| Refs (d : disk) (prefixes : list (list Z)) (remote : list Z) (table : list (list Z * (Z * list Z))) (expected : sx)
+                                                (* the refs layer alone: GitRepo.iter_refs over the prefixes,
+                                                   GitRepo._iter_packed_refs(prefixes), make_branch_refs_map(remote),
+                                                   make_buildtags_map(); [expected]: what the implementation gave --
+                                                   compared here, printing every observation of a shard overflows
+                                                   coqc's stack: () = equal, otherwise where they differ *)
+| Session (steps : list (bool * option dinfo * history))
+                                                (* one long-lived ReposCollection asked for several reports while
                                                    the repository changes in between: every report must be the
                                                    report of the repository as it is at that moment (the model is a
                                                    pure function of the history, it keeps nothing between reports) *)
@@ -32,10 +46,63 @@ Definition run_report (chk : bool) (h : history) : sx :=
   SL [sx_res (sx_list sx_obranch) (report h);
       SZ (if chk then (if acyclicb h && report_okb h (all_branches h) then 1 else 0) else 2)].
 
+Definition run_report_on (chk : bool) (od : option dinfo) (h : history) : sx :=
+  match od with
+  | None => run_report chk h
+  | Some di =>
+      match disk_history (di_disk di) (di_shas di) (di_tags di) h with
+      | Ok h' => run_report chk h'
+      | Err e => SL [sx_res (sx_list sx_obranch) (Err e); SZ (if chk then 0 else 2)]
+      end
+  end.
+
+Definition sx_ent (e : list Z * list Z) : sx := SL [sx_str (fst e); sx_str (snd e)].
+Definition sx_oent (e : list Z * option (list Z)) : sx := SL [sx_str (fst e); sx_option sx_str (snd e)].
+Definition sx_triple (t : list Z * Z * list Z) : sx := let '(s, n, b) := t in SL [sx_str s; SZ n; sx_str b].
+Definition res_map {A B} (f : A -> B) (r : res A) : res B := match r with Ok a => Ok (f a) | Err e => Err e end.
+
+Definition run_refs (d : disk) (prefixes : list (list Z)) (remote : list Z) (table : list (list Z * (Z * list Z))) : sx :=
+  SL [sx_res (sx_list sx_oent) (iter_refs d prefixes);
+      sx_res (sx_list sx_ent) (packed_refs d prefixes);
+      sx_res (sx_list sx_ent) (res_map sort_by_key (branch_refs_map d remote));
+      sx_res (sx_list sx_triple) (buildtags d table)].
+
+(* first difference of two observations: path, model part, implementation part *)
+Fixpoint sx_diff (a b : sx) : option (list Z * sx * sx) :=
+  match a, b with
+  | SZ x, SZ y => if x =? y then None else Some ([], a, b)
+  | SL l, SL m =>
+      (fix go (i : Z) (l m : list sx) : option (list Z * sx * sx) :=
+         match l, m with
+         | [], [] => None
+         | x :: l', y :: m' =>
+             match sx_diff x y with
+             | Some (p, u, v) => Some (i :: p, u, v)
+             | None => go (i + 1) l' m'
+             end
+         | _, _ => Some ([i], SL l, SL m)
+         end) 0 l m
+  | _, _ => Some ([], a, b)
+  end.
+
+Fixpoint sx_trunc (depth : nat) (s : sx) : sx :=
+  match depth with
+  | O => SL []
+  | S d => match s with
+           | SZ _ => s
+           | SL l => SL (map (sx_trunc d) (firstn 60 l))
+           end
+  end.
+
 Definition run (c : case) : sx :=
   match c with
-  | Report chk h => run_report chk h
-  | Session steps => SL (map (fun st : bool * history => run_report (fst st) (snd st)) steps)
+  | Report chk od h => run_report_on chk od h
+  | Refs d prefixes remote table expected =>
+      match sx_diff (run_refs d prefixes remote table) expected with
+      | None => SL []
+      | Some (p, u, v) => SL [SZ (-1); SL (map SZ p); sx_trunc 4 u; sx_trunc 4 v]
+      end
+  | Session steps => SL (map (fun st : bool * option dinfo * history => run_report_on (fst (fst st)) (snd (fst st)) (snd st)) steps)
   | SortKey n => sx_list sx_item (mk_sort_items n)
   | Cmp a b => SZ (Z.sgn (cmp_items (mk_sort_items a) (mk_sort_items b)))
   end.
